@@ -378,8 +378,8 @@ pub fn run(pc: &PropCtx) {
     pc.run_tape("multi_line_faults", ml_cases, (128, 1500), gen_case_ml, check);
     pc.require_class("multi_line_faults:multi_line", ml_cases as u64 / 4);
     if pc.tier == crate::runner::Tier::Thorough {
-        pc.run_fuzz("C16:line_mode_faults", 150_000, 12000, &|v| replay(pc, "line_mode_faults", v).unwrap_or(Verdict::Reject("unreadable")));
-        pc.run_fuzz("C16:multi_line_faults", 150_000, 6000, &|v| replay(pc, "multi_line_faults", v).unwrap_or(Verdict::Reject("unreadable")));
+        pc.run_fuzz("C16:line_mode_faults", 3_000, 12000, &|v| replay(pc, "line_mode_faults", v).unwrap_or(Verdict::Reject("unreadable")));
+        pc.run_fuzz("C16:multi_line_faults", 3_000, 6000, &|v| replay(pc, "multi_line_faults", v).unwrap_or(Verdict::Reject("unreadable")));
     }
     pc.set_shrink_iters(300);
     let m_cases = pc.tier.pick(4_000, 60_000);
